@@ -540,6 +540,56 @@ def explore(ctx):
     explore_steps(ctx, real)
     explore_strings(ctx, real)
     explore_trees(ctx, real)
+    sweetened_scalars(ctx, real.yaml, real.yatiml)
+
+
+def sweetened_scalars(ctx, yaml, yatiml):
+    """scalar nodes that a `_yatiml_sweeten` hook wrote itself (set_attribute / set_value with None, a bool,
+    an int, a float, a str): what is written depends on the node's tag, whatever its text"""
+    import json
+
+    class Quota:
+        def __init__(self, user: str, limit: int, ratio: float = 0.5, on: bool = True) -> None:
+            self.user, self.limit, self.ratio, self.on = user, limit, ratio, on
+
+        @classmethod
+        def _yatiml_sweeten(cls, node):
+            if node.get_attribute('limit').get_value() == -1:
+                node.set_attribute('limit', None)           # "no limit" is written as null
+            node.set_attribute('checked', True)
+            node.set_attribute('count', 3)
+            node.set_attribute('factor', 2.5)
+            node.set_attribute('note', 'n/a')
+            node.set_attribute('nothing', None)
+
+    class Marker:
+        def __init__(self, tag: str) -> None:
+            self.tag = tag
+
+        @classmethod
+        def _yatiml_sweeten(cls, node):
+            node.set_value(None)
+    dumps = yatiml.dumps_json_function(Quota, Marker)
+    want_q = lambda q: {'user': q.user, 'limit': None if q.limit == -1 else q.limit, 'ratio': q.ratio, 'on': q.on,  # noqa: E731
+                        'checked': True, 'count': 3, 'factor': 2.5, 'note': 'n/a', 'nothing': None}
+    for v, want in ((Quota('bob', -1), None), (Quota('al', 5, 1.5, False), None), ([Quota('x', -1), Marker('m')], None),
+                    ({'k': Marker('m')}, {'k': None})):
+        for indent in (None, 0, 2):
+            try:
+                text = dumps(v, indent=indent)
+                data = json.loads(text)
+                res = 'ok'
+            except Exception as e:  # noqa
+                text, data, res = locals().get('text', ''), None, type(e).__name__
+            ctx.case(('sweetened-scalars', repr(type(v)), indent), nontrivial=True)
+            ctx.count('sweetened_scalars')
+            exp = want
+            if exp is None:
+                exp = want_q(v) if isinstance(v, Quota) else [want_q(v[0]), None]
+            if res != 'ok' or data != exp:
+                ctx.violation('a null / scalar written by _yatiml_sweeten: the JSON is {!r} ({}), the data should be {!r}'.format(
+                    str(text)[:120], res, exp)[:400], dict(key='sweetened-scalar:' + res, text=str(text)[:300]))
+                break
 
 
 def search(ctx, broken):
